@@ -919,3 +919,51 @@ Proof.
     apply forallb_forall; intros sk Hin; rewrite forallb_forall in H; specialize (H sk Hin); unfold guarded_by in H;
     apply andb_prop in H; apply H.
 Qed.
+
+(* ---- two pipeline objects: the components are independent -------------------------------------- *)
+Lemma arun2_proj qa na qb nb tr : forall a b,
+  arun2 qa na qb nb (a, b) tr =
+  match arun qa na a (proj_pipe PA tr), arun qb nb b (proj_pipe PB tr) with
+  | Some a', Some b' => Some (a', b')
+  | _, _ => None
+  end.
+Proof.
+  induction tr as [|[p e] r IH]; intros a b; [reflexivity|].
+  destruct p; cbn [arun2 astep2 proj_pipe flat_map fst snd app arun].
+  - fold (proj_pipe PA r). fold (proj_pipe PB r).
+    destruct (astep qa na a e) as [a'|]; [apply IH|reflexivity].
+  - fold (proj_pipe PA r). fold (proj_pipe PB r).
+    destruct (astep qb nb b e) as [b'|]; [apply IH|].
+    destruct (arun qa na a (proj_pipe PA r)); reflexivity.
+Qed.
+
+(* what pipeline B does never changes pipeline A's state (its counter, its per-thread positions) *)
+Theorem two_pipes_component_A qa na qb nb tr a b a' b' :
+  arun2 qa na qb nb (a, b) tr = Some (a', b') -> arun qa na a (proj_pipe PA tr) = Some a'.
+Proof.
+  rewrite arun2_proj. destruct (arun qa na a (proj_pipe PA tr)); [|discriminate].
+  destruct (arun qb nb b (proj_pipe PB tr)); [|discriminate]. intros H. injection H as -> _. reflexivity.
+Qed.
+Theorem two_pipes_component_B qa na qb nb tr a b a' b' :
+  arun2 qa na qb nb (a, b) tr = Some (a', b') -> arun qb nb b (proj_pipe PB tr) = Some b'.
+Proof.
+  rewrite arun2_proj. destruct (arun qa na a (proj_pipe PA tr)); [|discriminate].
+  destruct (arun qb nb b (proj_pipe PB tr)); [|discriminate]. intros H. injection H as _ ->. reflexivity.
+Qed.
+
+(* the two-pipeline acceptor = the single-pipeline acceptor on each pipeline's own events *)
+Theorem accept_two_split qa na qb nb tr :
+  accept_two qa na qb nb tr = accept_conc qa na (proj_pipe PA tr) && accept_conc qb nb (proj_pipe PB tr).
+Proof.
+  unfold accept_two, accept_conc. rewrite arun2_proj.
+  destruct (arun qa na a0 (proj_pipe PA tr)) as [a|]; [|reflexivity].
+  destruct (arun qb nb a0 (proj_pipe PB tr)) as [b|]; [reflexivity|].
+  cbn. rewrite Bool.andb_false_r. reflexivity.
+Qed.
+
+Theorem accept_two_implies_oracles qa na qb nb tr : accept_two qa na qb nb tr = true ->
+  prop_c02_b qa na (proj_pipe PA tr) = true /\ prop_c02_b qb nb (proj_pipe PB tr) = true.
+Proof.
+  rewrite accept_two_split. intros H. apply andb_prop in H as [HA HB].
+  split; apply accept_implies_oracle; assumption.
+Qed.
